@@ -9,6 +9,15 @@ K = 'bounded model checking of the real code with Kani/CBMC (SAT)'
 M = 'bounded symbolic execution of the real MIR with an SMT solver (mirsym + z3)'
 
 CHECKS = {
+    'C17': dict(engine='M', cat='model_checking',
+                text='bounded symbolic execution of the real run_impl / build / Work::* over two independently drawn manifest generations handed out by a '
+                     'model of load::read (steps renamed / removed / renumbered, default list and pool depth changed, a generator with a helper input), '
+                     'symbolic dirty bits per (generation, step), targets, -f spelling, schedule and outcomes: the manifest phase touches only the '
+                     'generator\'s closure, a reload happens exactly when a command ran for it, everything afterwards refers to the new generation, '
+                     'failed regeneration stops with a non-zero exit, settled steps are not examined twice',
+                note='trusted: load::read modelled (generation k on the k-th call; the manifest is file 0 as in the real loader), S-cut scheduler environment, '
+                     'parse_args modelled; failing paths are replayed end to end with the n2 binary and generator scripts',
+                tech=M + '; two-generation manifest model; end-to-end native replay', ref='DESIGN.md section 4, C17'),
     'C20': dict(engine='M+K', cat='other',
                 text='bounded symbolic execution of the real render helpers: task_message over valid UTF-8 text of every character-length pattern '
                      'up to the byte bound with symbolic seconds (0..10^6) and width (10..300), truncate with a symbolic limit, progress_bar with '
